@@ -283,3 +283,62 @@ pub fn hyrax_plist_short(cfg: &Cfg) -> Verdict {
     let _ = LabeledCommitment::<CommOf<Hyrax>>::label;
     verdict(r, "Hyrax proof list shorter than the commitment list", false)
 }
+
+/// Batched form: one polynomial opened at several points; every claimed value carries a free error term and
+/// the witness of every proof but the first is shifted by a free multiple of the public generator. The same
+/// attack parameters are applied in two worlds that differ only in the SRS trapdoor, and each world's
+/// `batch_check` is run under several verifier tapes: an attack that works in both worlds cannot depend on the
+/// trapdoor. If both accept under every tape while some claimed value is false, a false claim has been proven.
+pub fn batch_forged<S: Sch>(cfg: &Cfg, ntapes: usize) -> Verdict {
+    use ark_poly_commit::Evaluations;
+    let n = cfg.queries.len();
+    let shifts: Vec<SF> = (1..n).map(|i| sym(&format!("a{}", i))).collect();
+    let errs: Vec<SF> = (0..n).map(|i| sym(&format!("err{}", i))).collect();
+    for salt in [0u64, 0x5eed_0002] {
+        let mut c = cfg.clone();
+        c.srs_salt = salt;
+        let mut w = match catch(|| build::<S>(&c)) {
+            Ok(Ok(w)) => w,
+            _ => return Verdict::Discard("honest phase failed".into()),
+        };
+        let g = match S::generator(&w.vk) {
+            Some(g) => g,
+            None => return Verdict::viol("driver", "scheme publishes no G1 generator"),
+        };
+        let qs = w.query_set();
+        let mut ev: Evaluations<PointOf<S>, SF> = w.evaluations();
+        let sp0 = sponge(&c, 1);
+        let mut sp_p = sp0.clone();
+        let proof = match catch(|| w.batch_open(&qs, &mut sp_p)) {
+            Ok(Ok(p)) => p,
+            _ => return Verdict::Discard("honest phase failed".into()),
+        };
+        let mut proofs: Vec<ProofOf<S>> = proof.into();
+        if proofs.len() != n {
+            return Verdict::viol("driver", "one proof per query point expected");
+        }
+        for (i, p) in proofs.iter_mut().enumerate().skip(1) {
+            let w0 = match S::proof_elem(p, 0) {
+                Some(x) => x,
+                None => return Verdict::viol("driver", "scheme has no witness element to shift"),
+            };
+            S::set_proof_elem(p, 0, w0 + shifts[i - 1] * g);
+        }
+        let bp: BatchProofOf<S> = proofs.into();
+        let keys: Vec<_> = ev.keys().cloned().collect();
+        for (i, k) in keys.iter().enumerate() {
+            *ev.get_mut(k).unwrap() += errs[i];
+        }
+        for tpe in 0..ntapes {
+            let mut sp_v = sp0.clone();
+            let r = catch(|| w.batch_check(&qs, &ev, &bp, &mut sp_v, c.seed * 1000 + 17 * tpe as u64 + 1));
+            if !matches!(r, Ok(Ok(true))) {
+                return Verdict::Hold;
+            }
+        }
+    }
+    if errs.iter().any(|e| !e.is_zero()) {
+        return Verdict::viol("accepted-false-claim", format!("batch_check accepted under {} verifier tapes and two independent trapdoors although a claimed value is false", ntapes));
+    }
+    Verdict::Hold
+}
